@@ -166,6 +166,9 @@ pub fn gen_case(rng: &mut Rng, fx: &Fixtures) -> Case {
             _ => None,
         };
         let d = match want {
+            // the amplification documents get a share of their own (they are too large to come
+            // up often enough through the size-weighted draw)
+            _ if rng.chance(1, 250) => fx.maps[*rng.pick(&fx.amplify[..])].clone(),
             Some(k) if rng.chance(85, 100) => zoo::draw_kind(rng, fx, k, 2),
             _ => zoo::draw_weighted(rng, fx, 2, &[34, 26, 15, 15, 4, 4, 2]),
         };
@@ -458,6 +461,47 @@ fn run_entry(c: &Case, d: &[u8], rdr: &mut SimReader, cx: &mut work::Ctx) -> Got
     }
 }
 
+/// Bytes that decoding spends on `sourceRoot + "/" + source` strings (one per entry of `sources`
+/// that is not absolute), summed over every map object in the delivered document. Used only to
+/// tell the recorded finding (DESIGN.md §11, F13) from any other excess allocation.
+fn prefixed_source_bytes(d: &[u8]) -> u64 {
+    fn walk(v: &serde_json::Value, acc: &mut u64) {
+        match v {
+            serde_json::Value::Object(o) => {
+                if let (Some(serde_json::Value::String(root)), Some(serde_json::Value::Array(srcs))) = (o.get("sourceRoot"), o.get("sources")) {
+                    if !root.is_empty() {
+                        for s in srcs {
+                            let s = s.as_str().unwrap_or("");
+                            let absolute = !s.is_empty() && (s.starts_with('/') || s.starts_with("http:") || s.starts_with("https:"));
+                            if !absolute {
+                                *acc += (root.len() + 1 + s.len()) as u64;
+                            }
+                        }
+                    }
+                }
+                for x in o.values() {
+                    walk(x, acc);
+                }
+            }
+            serde_json::Value::Array(a) => {
+                for x in a {
+                    walk(x, acc);
+                }
+            }
+            _ => {}
+        }
+    }
+    let start = match d.iter().position(|&b| b == b'{') {
+        Some(p) => p,
+        None => return 0,
+    };
+    let mut acc = 0;
+    if let Some(Ok(v)) = serde_json::Deserializer::from_slice(&d[start..]).into_iter::<serde_json::Value>().next() {
+        walk(&v, &mut acc);
+    }
+    acc
+}
+
 pub fn execute(c: &Case) -> Exec {
     let d = delivered(&c.events);
     let mut rdr = SimReader::new(&c.events);
@@ -466,8 +510,11 @@ pub fn execute(c: &Case) -> Exec {
     let mut map_kind = "-";
     panics::clear();
     let base = alloc::window_start();
+    let mut decode_peak = 0u64;
+    alloc::window_limit(base, ALLOC_BASE + ALLOC_PER_BYTE * d.len() as u64);
     let res = catch_unwind(AssertUnwindSafe(|| {
         let got = run_entry(c, &d, &mut rdr, &mut cx);
+        decode_peak = alloc::window_peak(base);
         if !c.entry.is_script() && c.workload_seed % 4 == 0 {
             // the public VLQ helpers on the segment texts of the delivered document
             let hot = crate::c05_faults::hot_regions(&d);
@@ -531,6 +578,7 @@ pub fn execute(c: &Case) -> Exec {
         drop(got);
     }));
     let peak = alloc::window_peak(base);
+    let tripped_in = alloc::window_tripped();
     let log = rdr.log.clone();
     let e = c.entry.name();
     let mut verdict = Verdict::Held;
@@ -553,7 +601,22 @@ pub fn execute(c: &Case) -> Exec {
             format!("{e} polled the reader {} times ({} after end of stream) for {} bytes: no progress", log.read_calls, log.polls_after_eof, d.len()),
         );
     } else if peak > ALLOC_BASE + ALLOC_PER_BYTE * d.len() as u64 {
-        verdict = Verdict::Violated(format!("alloc:{e}"), format!("peak allocation {} bytes for a {}-byte input (limit 4 MiB + 256 x input)", peak, d.len()));
+        // identified by the call during which the limit was first exceeded (all decoding entry
+        // points count as one) and by what in the delivered document accounts for the excess
+        let limit = ALLOC_BASE + ALLOC_PER_BYTE * d.len() as u64;
+        let during = tripped_in.unwrap_or("-");
+        let phase = if during == e { "decode" } else { during };
+        let prefixed = prefixed_source_bytes(&d);
+        let class = if phase == "decode" && decode_peak.saturating_sub(prefixed) <= limit {
+            // within the limit but for the copies of sourceRoot that decoding makes per source
+            "sourceRoot-x-sources"
+        } else {
+            "unexplained"
+        };
+        verdict = Verdict::Violated(
+            format!("alloc:{phase}:{class}"),
+            format!("peak allocation {} bytes ({} by the end of decoding) for a {}-byte input (limit 4 MiB + 256 x input), limit first exceeded during {during}; sourceRoot-prefixed copies of the sources account for {} bytes (entry point {e}, doc {})", peak, decode_peak, d.len(), prefixed, c.label),
+        );
     } else if let Some((sig, detail)) = cx.soft_violation.clone() {
         verdict = Verdict::Violated(sig, format!("{detail} (entry point {e}, doc {})", c.label));
     }
@@ -669,6 +732,9 @@ fn account(acc: &mut Acc, i: u64, c: &Case, ex: &Exec) {
     bump(&mut acc.fired, "early end of stream", c.stats.early_eof as u64);
     bump(&mut acc.entries, c.entry.name(), 1);
     bump(&mut acc.doc_kinds, c.doc_kind, 1);
+    if ex.decoded && c.label.starts_with("inline:amplify-") {
+        bump(&mut acc.doc_kinds, &format!("{} (decoded)", c.label), 1);
+    }
     bump(&mut acc.map_kinds, ex.map_kind, 1);
     for (k, v) in &ex.api_calls {
         bump(&mut acc.api_calls, k, *v);
@@ -835,6 +901,18 @@ fn replay_child(path: &str) -> i32 {
     let v = simcore::read_json(path);
     let c = Case::from_json(&v["case"]).unwrap_or_else(|| harness_error("replay file: bad case"));
     let ex = execute(&c);
+    // a run can violate the property in more than one way (say, a rewrite that panics and a
+    // serialised form that does not decode again); a replay file names the one it is about
+    if let Some(want) = v["signature"].as_str() {
+        let primary = matches!(&ex.verdict, Verdict::Violated(s, _) if s == want);
+        if !primary && !matches!(&ex.verdict, Verdict::Harness(_)) {
+            if let Some((s, d)) = ex.more.iter().find(|(s, _)| s == want) {
+                println!("RESULT violated sig={s} hash={:016x}", ex.event_hash);
+                println!("detail: {d}");
+                return 0;
+            }
+        }
+    }
     match &ex.verdict {
         Verdict::Held => println!("RESULT held hash={:016x}", ex.event_hash),
         Verdict::Violated(s, d) => {
@@ -924,7 +1002,8 @@ fn minimise(c0: &Case, sig: &str, scratch: &str) -> (Case, Value) {
     let fails = |c: &Case| -> bool {
         probes.set(probes.get() + 1);
         if in_process {
-            matches!(&execute(c).verdict, Verdict::Violated(s, _) if s == sig)
+            let ex = execute(c);
+            matches!(&ex.verdict, Verdict::Violated(s, _) if s == sig) || (!matches!(&ex.verdict, Verdict::Harness(_)) && ex.more.iter().any(|(s, _)| s == sig))
         } else {
             let p = format!("{scratch}.probe.json");
             simcore::write_json_atomic(&p, &json!({"case": c.to_json()}));
@@ -1221,7 +1300,7 @@ pub fn main(args: &Args) -> i32 {
         }
         let (cm, info) = minimise(&c, &probe_sig, &format!("{work_dir}/min-{idx}"));
         let path = format!("{}/replays/{PROP}-{}-{}.json", simcore::verif_dir(), base_seed, idx);
-        simcore::write_json_atomic(&path, &json!({"case": cm.to_json()}));
+        simcore::write_json_atomic(&path, &json!({"case": cm.to_json(), "signature": probe_sig}));
         let (rsig, rhash, rdetail) = run_case_in_child(&path, backstop + 10);
         let (final_case, detail, hash) = if rsig == probe_sig { (cm, rdetail, rhash) } else { (c.clone(), detail0.clone(), String::new()) };
         let d = delivered(&final_case.events);
@@ -1260,6 +1339,12 @@ pub fn main(args: &Args) -> i32 {
         for must in ["SourceMapIndex::flatten", "SourceMap::rewrite", "SourceMapHermes::get_scope_for_token", "SourceMap::to_writer", "SourceMap::get_original_function_name", "SourceMapRef::get_embedded_sourcemap"] {
             if acc.api_calls.get(must).copied().unwrap_or(0) == 0 {
                 probe_fail.push(format!("calls to {must}"));
+            }
+        }
+        for &k in &fx.amplify {
+            let must = format!("{} (decoded)", fx.maps[k].label);
+            if acc.doc_kinds.get(&must).copied().unwrap_or(0) == 0 {
+                probe_fail.push(must);
             }
         }
         if acc.map_entry_damaged > 0 && acc.map_entry_damaged_decoded * 100 / acc.map_entry_damaged < 25 {
